@@ -343,6 +343,36 @@ func waitPort(port int, p *proc, max time.Duration) bool {
 	return false
 }
 
+// ownsListener tells whether the listening socket on the loopback port belongs to this server process (and not to a
+// server of a scenario running beside this one that was given the same port number).
+func ownsListener(p *proc, port int) bool {
+	want := fmt.Sprintf("0100007F:%04X", port)
+	b, err := os.ReadFile("/proc/net/tcp")
+	if err != nil {
+		return true // cannot tell: do not second-guess
+	}
+	inode := ""
+	for _, ln := range strings.Split(string(b), "\n") {
+		f := strings.Fields(ln)
+		if len(f) > 9 && f[1] == want && f[3] == "0A" {
+			inode = f[9]
+		}
+	}
+	if inode == "" {
+		return false
+	}
+	fds, err := os.ReadDir(fmt.Sprintf("/proc/%d/fd", p.cmd.Process.Pid))
+	if err != nil {
+		return false
+	}
+	for _, fd := range fds {
+		if l, err := os.Readlink(fmt.Sprintf("/proc/%d/fd/%s", p.cmd.Process.Pid, fd.Name())); err == nil && l == "socket:["+inode+"]" {
+			return true
+		}
+	}
+	return false
+}
+
 // waitListening waits until the kernel shows a listening socket on the loopback port, without connecting to
 // it (the first connections a service sees are part of what is observed).
 func waitListening(port int, p *proc, max time.Duration) bool {
@@ -639,7 +669,20 @@ func runScenario(k int, sc scenario) scnObs {
 				continue
 			}
 			up := waitPort(readyPort, pr, 20*time.Second)
-			if b, _ := os.ReadFile(pr.out); bytes.Contains(b, []byte("address already in use")) {
+			clash := false
+			if up && !ownsListener(pr, readyPort) {
+				// something answers on the port, and it is not this process (not yet, or never): give it two
+				// seconds to get there or to report that the port is taken
+				clash = true
+				for w := 0; w < 100 && clash; w++ {
+					if b, _ := os.ReadFile(pr.out); bytes.Contains(b, []byte("address already in use")) || pr.exited() {
+						break
+					}
+					time.Sleep(20 * time.Millisecond)
+					clash = !ownsListener(pr, readyPort)
+				}
+			}
+			if b, _ := os.ReadFile(pr.out); clash || bytes.Contains(b, []byte("address already in use")) {
 				// a port of this scenario was taken (by a scenario running in parallel) between two of its
 				// runs: the server runs without that listener and whatever answers on the port is not it.
 				// Harness matter: same data directory, fresh ports, once more
